@@ -255,52 +255,7 @@ def run_case(kind, params, ctx):
         ctx.nontrivial()
         return
     if kind == "mutations":
-        muts = []
-        muts.append(("case_one", addr[:5] + addr[5:6].upper() + addr[6:]))
-        muts.append(("case_all", addr.upper()))
-        muts.append(("case_hrp_only", addr[:sep].upper() + addr[sep:]))
-        for cut in range(1, 9):
-            muts.append(("truncate", addr[:-cut]))
-        for ext in (b"q", b"qq", b"p", b"1", b" ", b"\n"):
-            muts.append(("extend", addr + ext))
-            muts.append(("extend", ext + addr))
-        # checksum constant swap
-        other = rb.BECH32M if ver == 0 else rb.BECH32
-        muts.append(("const_swap", rb.encode_segwit(hrp, ver, prog, const=other)))
-        # padding: re-encode data part by hand with non-zero pad bits / extra zero group
-        data = [ver] + rb.convertbits(list(prog), 8, 5)
-        padbits = (5 - (ln * 8) % 5) % 5
-        if padbits:
-            d2 = list(data)
-            d2[-1] |= 1
-            muts.append(("padding", _enc(hrp, d2, ver)))
-        muts.append(("padding", _enc(hrp, data + [0], ver)))
-        muts.append(("padding", _enc(hrp, data + [0, 0], ver)))
-        # wrong hrp with VALID checksum
-        for h in ("bd", "tc", "bcr", "bcrtt", "b", "BC", "xbc", "bc1", "lnbc"):
-            muts.append(("wrong_hrp", rb.encode_segwit(h.lower(), ver, prog)))
-        # version-only data part with a valid checksum, and empty data part
-        for v in (0, 1, 16):
-            muts.append(("version_only", _enc(hrp, [v], v)))
-        muts.append(("version_only", _enc(hrp, [], 0)))
-        muts.append(("version_only", _enc(hrp, [], 1)))
-        # versions 17..31 with valid bech32m checksum
-        for v in (17, 20, 31):
-            muts.append(("version_gt16", _enc(hrp, [v] + rb.convertbits(list(prog), 8, 5), v)))
-        # program lengths outside [2,40] / v0 with other lengths
-        for pl in (0, 1, 41, 42, 45):
-            pr = rand_bytes(rng, pl)
-            for v in (0, 1):
-                muts.append(("prog_len_out", _enc(hrp, [v] + rb.convertbits(list(pr), 8, 5), v)))
-        for pl in (2, 19, 21, 31, 33, 40):
-            muts.append(("v0_bad_len", _enc(hrp, [0] + rb.convertbits(list(rand_bytes(rng, pl)), 8, 5), 0)))
-        # separator games
-        muts.append(("separator", addr.replace(b"1", b"", 1)))
-        muts.append(("separator", b"1" + addr[sep + 1:]))
-        muts.append(("separator", addr[:sep] + b"11" + addr[sep + 1:]))
-        muts.append(("empty", b""))
-        muts.append(("empty", b"1"))
-        muts.append(("over90", rb.encode_segwit(hrp, 1, rand_bytes(rng, 40)) + b"q" * 30))
+        muts = crafted_mutations(rng, hrp, ver, prog)
         for cls, s in muts:
             _predicates(ctx, s, rb.decode_segwit(s), cls)
         ctx.nontrivial()
@@ -361,6 +316,60 @@ def run_case(kind, params, ctx):
         ctx.nontrivial()
         return
     raise ValueError(kind)
+
+
+def crafted_mutations(rng, hrp, ver, prog):
+    """Structurally crafted variants of a valid address (most carry a VALID checksum): (class, bytes) pairs; the caller decides with the reference decoder"""
+    addr = rb.encode_segwit(hrp, ver, prog)
+    sep = addr.rfind(b"1")
+    ln = len(prog)
+    muts = []
+    muts.append(("case_one", addr[:5] + addr[5:6].upper() + addr[6:]))
+    muts.append(("case_all", addr.upper()))
+    muts.append(("case_hrp_only", addr[:sep].upper() + addr[sep:]))
+    for cut in range(1, 9):
+        muts.append(("truncate", addr[:-cut]))
+    for ext in (b"q", b"qq", b"p", b"1", b" ", b"\n"):
+        muts.append(("extend", addr + ext))
+        muts.append(("extend", ext + addr))
+    # checksum constant swap
+    other = rb.BECH32M if ver == 0 else rb.BECH32
+    muts.append(("const_swap", rb.encode_segwit(hrp, ver, prog, const=other)))
+    # padding: re-encode data part by hand with non-zero pad bits / extra zero group
+    data = [ver] + rb.convertbits(list(prog), 8, 5)
+    padbits = (5 - (ln * 8) % 5) % 5
+    if padbits:
+        d2 = list(data)
+        d2[-1] |= 1
+        muts.append(("padding", _enc(hrp, d2, ver)))
+    muts.append(("padding", _enc(hrp, data + [0], ver)))
+    muts.append(("padding", _enc(hrp, data + [0, 0], ver)))
+    # wrong hrp with VALID checksum
+    for h in ("bd", "tc", "bcr", "bcrtt", "b", "BC", "xbc", "bc1", "lnbc"):
+        muts.append(("wrong_hrp", rb.encode_segwit(h.lower(), ver, prog)))
+    # version-only data part with a valid checksum, and empty data part
+    for v in (0, 1, 16):
+        muts.append(("version_only", _enc(hrp, [v], v)))
+    muts.append(("version_only", _enc(hrp, [], 0)))
+    muts.append(("version_only", _enc(hrp, [], 1)))
+    # versions 17..31 with valid bech32m checksum
+    for v in (17, 20, 31):
+        muts.append(("version_gt16", _enc(hrp, [v] + rb.convertbits(list(prog), 8, 5), v)))
+    # program lengths outside [2,40] / v0 with other lengths
+    for pl in (0, 1, 41, 42, 45):
+        pr = rand_bytes(rng, pl)
+        for v in (0, 1):
+            muts.append(("prog_len_out", _enc(hrp, [v] + rb.convertbits(list(pr), 8, 5), v)))
+    for pl in (2, 19, 21, 31, 33, 40):
+        muts.append(("v0_bad_len", _enc(hrp, [0] + rb.convertbits(list(rand_bytes(rng, pl)), 8, 5), 0)))
+    # separator games
+    muts.append(("separator", addr.replace(b"1", b"", 1)))
+    muts.append(("separator", b"1" + addr[sep + 1:]))
+    muts.append(("separator", addr[:sep] + b"11" + addr[sep + 1:]))
+    muts.append(("empty", b""))
+    muts.append(("empty", b"1"))
+    muts.append(("over90", rb.encode_segwit(hrp, 1, rand_bytes(rng, 40)) + b"q" * 30))
+    return muts
 
 
 def _enc(hrp, data, ver_for_const):
